@@ -351,7 +351,7 @@ def tecmp_good(rng):
         elif bad and rng.random() < 0.3:
             p = p[:1]                                   # the protected id alone
     elif r < 0.7:
-        mt, dt = 2, rng.choice([0, 2, 0x55])
+        mt, dt = 2, rng.choice([0, 2, 0x55, 0x00FF, 0x0100, 0xFFFF, rng.randrange(0xFF00)])
         k = rng.choice([0, 1, 2, 9, 40, rng.randrange(41)])
         entries = [wire.rbytes(rng, 12) for _ in range(k)]
         if k >= 2 and rng.random() < 0.4:                # several entries for one interface id (round5b-8)
@@ -364,7 +364,7 @@ def tecmp_good(rng):
         if bad:
             p = p[:rng.randrange(0, 12)]
     elif r < 0.9:
-        mt, dt = 1, rng.choice([0, 2])
+        mt, dt = 1, rng.choice([0, 2, 0x00FF, 0x0100, 0xFFFF, rng.randrange(0xFF00)])
         p = wire.rbytes(rng, rng.choice([36, 36, 40, 46, 60]))
         if bad:
             p = p[:rng.randrange(1, 36)]
